@@ -1,6 +1,29 @@
 package chk09
 
-import "package-operator.run/internal/verifharness/vh"
+import (
+	"math/rand"
 
-// deployments: pause propagation Package -> ObjectDeployment -> revisions (added with the deployment family).
-func deployments(c *vh.Ctx) {}
+	"package-operator.run/internal/verifharness/chkfam"
+	"package-operator.run/internal/verifharness/monitors"
+	"package-operator.run/internal/verifharness/scen"
+	"package-operator.run/internal/verifharness/vh"
+)
+
+// deployments: pause propagation ObjectDeployment -> revisions.
+func deployments(c *vh.Ctx) {
+	chkfam.RunDeployStream(c, chkfam.DeployConfig{
+		Stream: "c09-deployments", NQuick: 150, NThorough: 3000,
+		Profile: func(r *rand.Rand) scen.DeployProfile {
+			return scen.DeployProfile{
+				Steps: 70 + r.Intn(60), Cluster: r.Intn(4) == 0, Limit: []int{-1, 1, 2}[r.Intn(3)], Templates: 3,
+				Weights: scen.DeployWeightsWith(map[string]int{"pause-deployment": 7, "unpause-deployment": 6, "pause-set": 6, "unpause-set": 3, "edit-template": 6, "workload": 15, "plant-collision": 0, "fault": 1}),
+			}
+		},
+		Monitors:          func() []scen.Monitor { return []scen.Monitor{&monitors.C09D{}, &monitors.C09{}} },
+		NonTrivialCounter: "c09d_paused_deployment_passes",
+	})
+	c.GateCount("c09d_paused_deployment_passes", 200)
+	c.GateCount("c09d_revisions_paused_by_parent", 200)
+	c.GateCount("c09d_revisions_released", 50)
+	c.GateCount("c09d_user_paused_revision_left_alone", 20)
+}
